@@ -29,7 +29,7 @@ func main() {
 		ID:    "C19",
 		Level: "exploration",
 		Rule: "(a) sessions: one marbl.Stream, K=1..16 goroutines each logging 1..4 PRNG requests/responses (header multisets with repeats, empty/long/binary values, " +
-			"API flag, bodies 0..1 MiB from an instrumented reader that returns short reads, (0,nil), (n>0,EOF), and non-EOF errors as (0,err) or (n>0,err), transient or persistent) and reading the wrapped body with PRNG " +
+			"API flag, one in three parsed by net/http from rendered wire text with framing line none / Content-Length: 0 / Content-Length: n / chunked, bodies 0..1 MiB from an instrumented reader that returns short reads, (0,nil), (n>0,EOF), and non-EOF errors as (0,err) or (n>0,err), transient or persistent) and reading the wrapped body with PRNG " +
 			"buffer sizes 0 B..64 KiB, stopping at EOF/error, early, or after extra reads past EOF or past an error; writers: plain, slow, marbl.Handler with a websocket subscriber; plus exchanges " +
 			"through marbl.Modifier in a martian.Proxy. The emitted bytes are parsed by an independent parser and by marbl.Reader (must agree frame for frame) and compared per " +
 			"(id,type) with the spec and with what the consumer read. A class is (driver, writer, K bucket, message type, body-size bucket, data-frame-count bucket, how the read ended), plus (driver, type, set of Read outcome kinds seen through the wrapper). " +
@@ -38,7 +38,7 @@ func main() {
 			"EXHAUSTIVE sub-space: every truncation offset of every valid stream generated in the 'trunc' batch, and every (nl, vl) pair of the wrap table " +
 			"(nl in 24 boundary values x wrapped sums 0..16) — nothing else is exhaustive.",
 		Assumptions: []string{
-			"header frames for Host, Content-Length (>0) and Transfer-Encoding are derived from the message fields as proxyutil.Header.Map documents; a 'Content-Length: 0' frame is accepted but not required",
+			"header frames for Host, Content-Length (>0) and Transfer-Encoding are derived from the message fields as proxyutil.Header.Map documents; for messages assembled field by field a 'Content-Length: 0' frame is accepted but not required (ContentLength 0 is also the zero value); for messages parsed from wire text the logged header multiset must be exactly the header lines written, an explicit 'Content-Length: 0' included",
 			"the order of header frames within a message is not judged (only pseudo-header values and the header multiset); :timestamp must be a decimal integer",
 			"request/response bodies are never nil (as inside the proxy, where net/http guarantees a non-nil Body)",
 			"for the frame reader, process death under a 2 GiB address-space limit (ulimit -v) counts as 'panicking': a reader must not allocate what a 20-byte input merely claims",
